@@ -375,6 +375,13 @@ def r2_admission(ctx, rule='C07.R2'):
             return len(flags) == 1 and _busy_truth(ctx.P, flags[0]) is want, rel
         ok, rel = busy_only([a for _, a in f.guard_atoms(pol[0].b)], True)
         others = [a for a in rel if _busy_truth(ctx.P, a) is None]
+        if h is f and len(pol) > 1:
+            # the policy's own decisions (variant, limit test, a predicate helper's verdict) guard its effects here: what all of its
+            # effects have in common is the entry condition, and that has to be the busy flag alone
+            per = [busy_only([a for _, a in f.guard_atoms(s_.b)], True) for s_ in pol]
+            ok = all(o for o, _ in per)
+            rel = per[0][1]
+            others = [a for a in rel if _busy_truth(ctx.P, a) is None and all(a in r_ for _, r_ in per[1:])]
         ctx.check(ok and not others, 'policy-iff-busy', 'the drop/queue policy is applied iff the channel is busy (the decision depends on the busy flag only)',
                   pol[0].where(), [show_atom(a) for a in rel])
         for s in tx:
@@ -600,7 +607,7 @@ def r8_created_idle(ctx):
                 idle = v is not None and ((kind == 'flag' and v == ('int', 0)) or (kind == 'opt' and v[0] == 'agg' and str(v[1]).endswith('Option::None')))
                 ctx.check(idle, 'created-idle:%s' % f.key.split('::')[-1], 'a ChannelInner is constructed with the transmitter idle (a constant), never with a copied busy state',
                           f.where(b), show(v)[:120] if v is not None else None)
-    ctx.floor('ChannelInner constructions', n, 2)
+    ctx.floor('ChannelInner constructions', n, 1)     # (two on the pinned tree; one shared constructor serves as well)
 
 
 def r5_unbusy(ctx):
